@@ -106,6 +106,9 @@ pub enum E {
     Assign(AssignKind, Vec<(Pat, E)>, Box<E>),
     Lambda(Vec<String>, Pat, Box<E>),
     Apply(Box<E>, Box<E>),
+    /// (a (mod PARAMS helpers... body) ARGS): a nested module applied to an argument list. The nested
+    /// module is closed (no outer name is visible inside it) and has its own helpers.
+    ApplyMod(Box<Prog>, Box<E>),
 }
 
 impl E {
@@ -274,6 +277,7 @@ impl E {
                 format!("(lambda {} {})", head, body.text_(tmpl))
             }
             E::Apply(f, a) => format!("(a {} {})", f.text_(tmpl), a.text_(tmpl)),
+            E::ApplyMod(p, a) => format!("(a {} {})", p.text(), a.text_(tmpl)),
         }
     }
 }
@@ -582,6 +586,14 @@ impl<'a> Interp<'a> {
                     _ => Err(NoValue("apply of a non-closure (outside the documented fragment)".to_string())),
                 }
             }
+            E::ApplyMod(p, a) => {
+                let av = self.eval(a, env)?;
+                let at = av.to_t().ok_or_else(|| NoValue("closure given to a nested module".to_string()))?;
+                let mut sub = Interp { prog: p, fuel: self.fuel };
+                let r = sub.run(&at);
+                self.fuel = sub.fuel;
+                Ok(V::from_t(&r?))
+            }
         }
     }
 }
@@ -615,6 +627,7 @@ pub fn free_vars(e: &E, out: &mut Vec<String>) {
             free_vars(f, out);
             free_vars(a, out);
         }
+        E::ApplyMod(_, a) => free_vars(a, out),
     }
 }
 
@@ -636,6 +649,7 @@ pub fn subst(t: &E, params: &[String], args: &[E]) -> E {
         E::Assign(k, bs, b) => E::Assign(k.clone(), bs.iter().map(|(p, x)| (p.clone(), s(x))).collect(), Box::new(s(b))),
         E::Lambda(c, p, b) => E::Lambda(c.clone(), p.clone(), Box::new(s(b))),
         E::Apply(f, a) => E::Apply(Box::new(s(f)), Box::new(s(a))),
+        E::ApplyMod(p, a) => E::ApplyMod(p.clone(), Box::new(s(a))),
     }
 }
 
